@@ -45,7 +45,7 @@ func KnobsFor(seed uint64, cfgIdx int, max Knobs) Knobs {
 	if tier >= 2 {
 		add(AllKnobs)
 	}
-	// ExtraKnobs (only when max asks for them: "all2"): half of the medium and full configurations.  The
+	// ExtraKnobs (only when max asks for them: "all2" / "all3"): half of the medium and full configurations.  The
 	// draw comes last, so the knob sets chosen under the frozen AllKnobs are what they always were.
 	if tier >= 1 {
 		for _, n := range ExtraKnobs {
@@ -256,6 +256,10 @@ type Features struct {
 	CovField, CovNarrowed, CovSameKey bool
 	// ScopedHop: an entity-typed field that an interface declares is selected under >= 2 type-condition scopes
 	ScopedHop bool
+	// NestedList: a field of list depth >= 2 is selected; NestedHopTypes: entity types that need an entity fetch
+	// below such a field (nestedFeatures)
+	NestedList     bool
+	NestedHopTypes map[string]bool
 }
 
 func (c *Case) Features() Features {
@@ -313,6 +317,12 @@ func (c *Case) Features() Features {
 					if fd.Type.IsList() && !c.Cfg.Super.IsLeaf(fd.Type.Base()) {
 						f.IfaceObjList = true
 					}
+					// (a field selected on the interface carries the @provides of its implementers)
+					for _, p := range c.Cfg.Super.PossibleTypes(typ) {
+						if provides[p+"."+s.Name] {
+							f.Provides = true
+						}
+					}
 				}
 				if provides[typ+"."+s.Name] {
 					f.Provides = true
@@ -337,16 +347,33 @@ func (c *Case) Features() Features {
 	walk(c.Cfg.Super.Query, c.Op.Sels, 0)
 	f.CovField, f.CovNarrowed, f.CovSameKey = c.covFeatures()
 	f.ScopedHop = c.scopedHopFeature()
+	f.NestedList, f.NestedHopTypes = c.nestedFeatures()
 	return f
 }
 
 // Summary is the one-line case description used in cases files and evidence samples.
 func (c *Case) Summary(v *Verdict) string {
 	f := c.Features()
-	return fmt.Sprintf("(sum (subgraphs %d) (types %d) (fetches %d) (entityfetches %d) (abstract %s) (requires %s) (provides %s) (vars %s) (frags %s) (dirs %s) (aliases %s) (ifacerequires %s) (ifaceobjlist %s) (covfield %s) (covnarrowed %s) (covsamekey %s) (scopedhop %s))",
+	// nestedhop: the gateway really sent an _entities fetch for an entity type that the operation reaches below a
+	// list of lists and of which it selects a field the arriving subgraph does not resolve
+	nestedHop := false
+	if v.Gateway != nil && len(f.NestedHopTypes) > 0 {
+		for _, q := range v.Gateway.Requests {
+			if !q.IsEntityFetch {
+				continue
+			}
+			for _, rep := range q.Representations {
+				if tn := rep.Get("__typename"); tn != nil && f.NestedHopTypes[tn.Raw] {
+					nestedHop = true
+				}
+			}
+		}
+	}
+	return fmt.Sprintf("(sum (subgraphs %d) (types %d) (fetches %d) (entityfetches %d) (abstract %s) (requires %s) (provides %s) (vars %s) (frags %s) (dirs %s) (aliases %s) (ifacerequires %s) (ifaceobjlist %s) (covfield %s) (covnarrowed %s) (covsamekey %s) (scopedhop %s) (nestedlist %s) (nestedhop %s))",
 		f.Subgraphs, f.Types, v.Fetches, v.EntityFetches, common.B(f.Abstract), common.B(f.Requires), common.B(f.Provides),
 		common.B(f.Variables), common.B(f.Fragments), common.B(f.Directives), common.B(f.Aliases),
-		common.B(f.IfaceRequires), common.B(f.IfaceObjList), common.B(f.CovField), common.B(f.CovNarrowed), common.B(f.CovSameKey), common.B(f.ScopedHop))
+		common.B(f.IfaceRequires), common.B(f.IfaceObjList), common.B(f.CovField), common.B(f.CovNarrowed), common.B(f.CovSameKey), common.B(f.ScopedHop),
+		common.B(f.NestedList), common.B(nestedHop))
 }
 
 func joinTrunc(xs []string, n int) string {
